@@ -654,7 +654,75 @@ def str_xsplit1(which, s, sep):
   return k.unbox(sym.ufun('str_' + which + '1', sym.Str, sym.Str, k.sort())(s, sep))
 
 
+def _native_str_method(ex, obj, name, args, kwargs, node):
+  s = obj.e
+  if name in ('startswith', 'endswith'):
+    f = z3.PrefixOf if name == 'startswith' else z3.SuffixOf
+    return VBool(f(args[0].e, s))
+  if name in ('rsplit', 'split') and (len(args) == 2 or 'maxsplit' in kwargs):
+    mx = args[1] if len(args) == 2 else kwargs['maxsplit']
+    sep = args[0].e
+    if not (isinstance(mx, VInt) and mx.concrete() == 1):
+      raise OutOfSubset('split with maxsplit != 1 on a native string', node)
+    kl = KList(sym.KStrN)
+    if not ex.path.decide(z3.Contains(s, sep)):
+      return kl.from_items([obj])
+    a = ex.path.fresh_const('piece', z3.StringSort())
+    b = ex.path.fresh_const('piece', z3.StringSort())
+    ex.path.assume(s == z3.Concat(a, sep, b))
+    # the separator found is the LAST one (rsplit) / the FIRST one (split)
+    ex.path.assume(z3.Not(z3.Contains(b if name == 'rsplit' else a, sep)))
+    return kl.from_items([VStr(a), VStr(b)])
+  if name == 'split' and len(args) == 1 and not kwargs:
+    sep = args[0].e
+    kl = KList(sym.KStrN)
+    n = ex.path.fresh_const('nparts', sym.IntS)
+    arr = ex.path.fresh_const('parts', z3.ArraySort(sym.IntS, z3.StringSort()))
+    pre = ex.path.fresh_const('upto_last_sep', z3.StringSort())
+    rest = ex.path.fresh_const('after_first_sep', z3.StringSort())
+    lst = VList(kl, n, arr)
+    has = z3.Contains(s, sep)
+    ex.path.assume(n >= 1)
+    ex.path.assume(z3.Implies(z3.Not(has), z3.And(n == 1, arr[0] == s)))
+    ex.path.assume(z3.Implies(has, z3.And(
+        n >= 2, s == z3.Concat(arr[0], sep, rest), z3.Not(z3.Contains(arr[0], sep)),
+        s == z3.Concat(pre, sep, arr[n - 1]), z3.Not(z3.Contains(arr[n - 1], sep)))))
+    lst.split_of = (s, sep, pre, arr, n)
+    return lst
+  if name == 'join':
+    lst = args[0]
+    if isinstance(lst, VStr) and z3.simplify(z3.Length(s) == 0):
+      return lst                  # ''.join(string) is the string itself
+    if isinstance(lst, VPy) and lst.what == 'emptylist':
+      return VStr(z3.StringVal(''))
+    if isinstance(lst, VTuple):
+      lst = KList(sym.KStrN).from_items(lst.items)
+    if isinstance(lst, VList):
+      ln = z3.simplify(lst.len)
+      if z3.is_int_value(ln):
+        items = [lst.at(i) for i in range(ln.as_long())]
+        if not items:
+          return VStr(z3.StringVal(''))
+        out = items[0]
+        for it in items[1:]:
+          out = z3.Concat(out, s, it)
+        return VStr(out)
+      so = getattr(lst, 'split_of', None)
+      if so is not None and so[1].eq(s) and lst.len.eq(so[4]):
+        # a split list whose LAST element was (possibly) replaced: everything up to
+        # the last separator is unchanged  [assumed fact about str.split/join]
+        src, sep, pre, arr0, n = so
+        last = lst.at(n - 1)
+        unchanged_front = z3.simplify(lst.arr == z3.Store(arr0, n - 1, last))
+        if z3.is_true(unchanged_front) or lst.arr.eq(arr0):
+          return VStr(z3.If(n == 1, last, z3.Concat(pre, sep, last)))
+    raise OutOfSubset('join of this native list', node)
+  raise OutOfSubset(f'native str.{name}', node)
+
+
 def _str_method(ex, obj, name, args, kwargs, node):
+  if obj.native:
+    return _native_str_method(ex, obj, name, args, kwargs, node)
   if name == 'join':
     lst = args[0]
     if isinstance(lst, VPy) and lst.what == 'emptylist':
